@@ -24,5 +24,5 @@ def run(ctx, rep):
     textparse.rule_script_whitespace(ctx, rep, "C16-R6", only=_in_family)
     optargs.rule_missing_is_undefined(ctx, rep, "C16-R7", lambda f: _in_family(f.qual), "the String methods and constructor", floor=5)
     builtins.rule_template_single_pass(ctx, rep, "C16-R8")
-    optargs.rule_integer_argument_consulted(ctx, rep, "C16-R9", lambda f: _in_family(f.qual), "the String methods", floor=8)
+    optargs.rule_integer_argument_consulted(ctx, rep, "C16-R9", lambda f: _in_family(f.qual), "the String methods", floor=3)
     rep.undecided += ["the method result tables over the argument grid (values, not shape): a runtime differential, outside static analysis"]
